@@ -646,3 +646,322 @@ func runC11Files(c *Ctx) {
 		}
 	}
 }
+
+// ---------------------------------------------------------------- stream "edges"
+
+// Stream "edges" of C11: what stands at the chronological ends of the journal is a directive that books nothing.
+//
+// The window of a report is the requested period clipped to the journal's period, and the journal's period is spanned by
+// the transactions (start and end) and the prices (end only) THAT THE RUN ACCEPTS: an open/close of an account nobody
+// books to, a balance assertion, an empty included file move nothing; a price — also of a commodity the journal never
+// uses — dated after the last transaction moves the end; a price that the run refuses (value 0 when a valuation is
+// requested) refuses the whole journal: no report is printed.  (Seeded change C11-k let the builder drop a zero price
+// after its date had already been merged into the journal's period: the columns of `--val` reports ran up to the date of a
+// directive that is not part of the journal and --last kept empty periods.)  The journal is the one-CHF-a-day journal of
+// the cli stream plus 1-4 such directives before the first / after the last / between the transactions, in the main file
+// or in an included prices file, with and without --val, --from, --to, --last, --diff, all six intervals.
+type c11Extra struct {
+	kind, pos string
+	day       int
+	text      string
+	file      int
+}
+
+func runC11Edges(c *Ctx) {
+	if c.KnutBin == "" {
+		return
+	}
+	n := c.N(220, 5000)
+	base := filepath.Join(c.WorkDir, "c11edges")
+	type job struct {
+		idx                int
+		first, ndays       int
+		from, to, iv, last int
+		diff, val          bool
+		extras             []*c11Extra
+		names, texts       []string
+		args               []string
+		runs               []*c11Run
+		root               string
+	}
+	var jobs []*job
+	for i := 0; i < n; i++ {
+		if !c.Want("edges", i) {
+			continue
+		}
+		r := c.Rng("edges", i)
+		jb := &job{idx: i}
+		jb.first = dayNum(time.Date(r.Range(1995, 2022), time.Month(r.Range(1, 12)), r.Range(1, 28), 0, 0, 0, 0, time.UTC))
+		jb.ndays = Pick(r, []int{1, 2, 3, 7, 20, 45, 100, 200})
+		lastDay := jb.first + jb.ndays - 1
+		openDay := jb.first - Pick(r, []int{1, 1, 30, 500})
+		if r.Chance(1, 3) {
+			jb.from = jb.first + r.Range(-10, jb.ndays/2+2)
+		}
+		if r.Chance(1, 3) {
+			jb.to = lastDay + Pick(r, []int{-jb.ndays / 2, -1, 0, 1, 5, 15, 50, 150, 500})
+		}
+		jb.iv = Pick(r, []int{0, 1, 2, 2, 3, 3, 3, 4, 4, 5})
+		if jb.iv == 1 && jb.ndays > 45 {
+			jb.iv = 2 // the directives after the end may lie a year away
+		}
+		if r.Chance(1, 3) {
+			jb.last = r.Range(1, 4)
+		}
+		jb.diff = r.Chance(1, 2)
+		jb.val = r.Chance(3, 5)
+		// ---- the files: main, possibly a prices file, possibly a file without any directive
+		jb.names = []string{"main.knut"}
+		if r.Chance(1, 2) {
+			jb.names = append(jb.names, "prices.knut")
+		}
+		nhold := len(jb.names)
+		if r.Chance(1, 4) {
+			jb.names = append(jb.names, "sub/empty.knut")
+		}
+		// ---- the directives that book nothing
+		nextra := r.Range(1, 4)
+		for k := 0; k < nextra; k++ {
+			e := &c11Extra{kind: Pick(r, []string{"price", "price", "zeroprice", "zeroprice", "zeroprice", "otherprice", "open", "openclose", "assert", "assert"}),
+				pos: Pick(r, []string{"after", "after", "after", "before", "before", "inside"}), file: r.Intn(nhold)}
+			switch e.pos {
+			case "after":
+				e.day = lastDay + Pick(r, []int{1, 2, 10, 40, 86, 100, 400})
+			case "before":
+				e.day = jb.first - Pick(r, []int{1, 2, 10, 40, 86, 100, 400})
+			default:
+				e.day = jb.first + r.Intn(jb.ndays)
+			}
+			switch e.kind {
+			case "price":
+				e.text = fmt.Sprintf("%s price USD %s CHF\n", fmtDate(e.day), Pick(r, []string{"0.9", "1.1", "1", "0.00000001", "12345.678"}))
+			case "zeroprice":
+				e.text = fmt.Sprintf("%s price %s %s CHF\n", fmtDate(e.day), Pick(r, []string{"USD", "USD", "XAU"}), Pick(r, []string{"0", "0", "0.0", "0.000"}))
+			case "otherprice":
+				e.text = fmt.Sprintf("%s price XAU 1800 USD\n", fmtDate(e.day))
+			case "open":
+				e.text = fmt.Sprintf("%s open Assets:U%d\n", fmtDate(e.day), k)
+			case "openclose":
+				e.text = fmt.Sprintf("%s open Assets:U%d\n\n%s close Assets:U%d\n", fmtDate(e.day-Pick(r, []int{0, 1, 30})), k, fmtDate(e.day), k)
+			case "assert":
+				// within a day: openings, transactions, assertions
+				if e.day < openDay {
+					e.day = openDay
+				}
+				bal := min(max(e.day-jb.first+1, 0), jb.ndays)
+				e.text = fmt.Sprintf("%s balance Assets:A %d CHF\n", fmtDate(e.day), bal)
+			}
+			jb.extras = append(jb.extras, e)
+		}
+		items := make([][]string, len(jb.names))
+		for d := 0; d < jb.ndays; d++ {
+			items[0] = append(items[0], fmt.Sprintf("%s \"d%d\"\nEquity:E Assets:A 1 CHF\n", fmtDate(jb.first+d), d))
+		}
+		ins := func(f int, s string, p int) {
+			if p < 0 {
+				p = r.Intn(len(items[f]) + 1)
+			}
+			items[f] = append(items[f][:p], append([]string{s}, items[f][p:]...)...)
+		}
+		for _, e := range jb.extras {
+			ins(e.file, e.text, -1)
+		}
+		ins(0, fmt.Sprintf("%s open Assets:A\n", fmtDate(openDay)), -1)
+		ins(0, fmt.Sprintf("%s open Equity:E\n", fmtDate(openDay)), -1)
+		for k := 1; k < len(jb.names); k++ {
+			ins(0, fmt.Sprintf("include \"%s\"\n", jb.names[k]), Pick(r, []int{0, len(items[0]), -1}))
+		}
+		for k := range jb.names {
+			jb.texts = append(jb.texts, strings.Join(items[k], "\n"))
+		}
+		jb.args = []string{"balance", "--color=false", "--csv", "--close=false"}
+		if jb.val {
+			jb.args = append(jb.args, "--val", "CHF")
+		}
+		if jb.to != 0 {
+			jb.args = append(jb.args, "--to", fmtDate(jb.to))
+		}
+		if jb.from != 0 {
+			jb.args = append(jb.args, "--from", fmtDate(jb.from))
+		}
+		if jb.iv > 0 {
+			jb.args = append(jb.args, intervalFlag[jb.iv])
+		}
+		if jb.last > 0 {
+			jb.args = append(jb.args, "--last", itoa(jb.last))
+		}
+		if jb.diff {
+			jb.args = append(jb.args, "--diff")
+		}
+		// the unperturbed schedule and a perturbed one
+		jb.runs = []*c11Run{{}, {env: []string{fmt.Sprintf("KNUT_VERIF_SEED=%d", r.Range(1, 100000))}}}
+		jobs = append(jobs, jb)
+	}
+	for _, jb := range jobs {
+		dir := filepath.Join(base, fmt.Sprintf("c%d", jb.idx))
+		for k, nm := range jb.names {
+			p := filepath.Join(dir, nm)
+			os.MkdirAll(filepath.Dir(p), 0o755)
+			os.WriteFile(p, []byte(jb.texts[k]), 0o644)
+		}
+		jb.root = filepath.Join(dir, "main.knut")
+	}
+	type rj struct{ j, k int }
+	var rjs []rj
+	for j := range jobs {
+		for k := range jobs[j].runs {
+			rjs = append(rjs, rj{j, k})
+		}
+	}
+	parallelFor(len(rjs), 16, func(q int) {
+		jb := jobs[rjs[q].j]
+		run := jb.runs[rjs[q].k]
+		run.code, run.stdout, run.stderr = runKnut(c.KnutBin, 20*time.Second, run.env, append(append([]string{}, jb.args...), jb.root)...)
+	})
+	os.RemoveAll(base)
+	bt := c.NewBatch()
+	defer bt.Flush()
+	for _, jb := range jobs {
+		jb := jb
+		c.Evals++
+		lastDay := jb.first + jb.ndays - 1
+		// the journal's period: first transaction .. last transaction or accepted price; a price of value 0 is an ordinary
+		// directive unless a valuation is requested, and then the journal is refused
+		a, b := jb.first, lastDay
+		refused := false
+		var kinds []string
+		var layout []map[string]any
+		for _, e := range jb.extras {
+			kinds = append(kinds, e.kind+"-"+e.pos)
+			layout = append(layout, map[string]any{"file": jb.names[e.file], "directive": e.text})
+			switch e.kind {
+			case "price", "otherprice":
+				b = max(b, e.day)
+			case "zeroprice":
+				if jb.val {
+					refused = true
+				} else {
+					b = max(b, e.day)
+				}
+			}
+		}
+		jend := b
+		a = max(a, jb.from)
+		to := jb.to
+		if to == 0 {
+			to = today()
+		}
+		b = min(b, to)
+		for q := 1; q < len(kinds); q++ {
+			for w := q; w > 0 && kinds[w] < kinds[w-1]; w-- {
+				kinds[w], kinds[w-1] = kinds[w-1], kinds[w]
+			}
+		}
+		c.Class(fmt.Sprintf("edges/%s/val%v/refused%v/files%d/iv%d/last%d/diff%v/from%v/to%v/%s", strings.Join(kinds, "+"), jb.val, refused, len(jb.names), jb.iv, min(jb.last, 2), jb.diff,
+			jb.from != 0, jb.to != 0, sign(b-a)))
+		if jb.idx < 1 {
+			c.Sample(map[string]any{"stream": "edges", "args": jb.args, "files": jb.names, "other_directives": layout, "stdout": clip(jb.runs[0].stdout), "stderr": clip(jb.runs[0].stderr)})
+		}
+		count := func(lo, hi int) int {
+			lo, hi = max(lo, a, jb.first), min(hi, b, lastDay)
+			if hi < lo {
+				return 0
+			}
+			return hi - lo + 1
+		}
+		for _, run := range jb.runs {
+			run := run
+			in := map[string]any{"args": strings.Join(jb.args, " ") + " main.knut",
+				"journal":           fmt.Sprintf("1 CHF from Equity:E to Assets:A on each of the %d days from %s to %s (main.knut), and the directives listed", jb.ndays, fmtDate(jb.first), fmtDate(lastDay)),
+				"files":             jb.names,
+				"other_directives":  layout,
+				"journal_period":    fmtDate(jb.first) + ".." + fmtDate(jend),
+				"window":            map[string]any{"a": a, "b": b, "start": fmtDate(a), "end": fmtDate(b), "iv": jb.iv, "last": jb.last},
+				"child_environment": strings.Join(childTZ(run.env, append(append([]string{}, jb.args...), jb.root)), " ")}
+			var header, row []string
+			skip := 2 // Account,Comm,...; with a valuation there is no commodity column
+			if jb.val {
+				skip = 1
+			}
+			for _, l := range strings.Split(run.stdout, "\n") {
+				f := strings.Split(l, ",")
+				switch {
+				case strings.HasPrefix(l, "Account,"):
+					header = f[skip:]
+				case f[0] == "A" && len(f) >= skip:
+					row = f[skip:]
+				}
+			}
+			// a refused journal prints no report; an accepted one prints one
+			outcome := fmt.Sprintf("exit %d, %d columns", run.code, len(header))
+			switch {
+			case run.code == 0 && strings.Contains(run.stdout, "Account"):
+				outcome = "report"
+			case run.code > 0 && strings.TrimSpace(run.stdout) == "":
+				outcome = "refused"
+				if strings.Contains(run.stderr, "invalid price") {
+					outcome = "refused: invalid price"
+				}
+			}
+			want := "report"
+			if refused {
+				want = "refused: invalid price"
+			}
+			detail := outcome
+			if outcome != want {
+				detail += "\nstdout:\n" + clip(run.stdout) + "\nstderr:\n" + clip(run.stderr)
+			}
+			c.Monitor("edges", jb.idx, "C11 a journal with a price that the valuation refuses prints no report, every other journal prints one", in, outcome == want, "expected "+want+", got "+detail)
+			if outcome != "report" {
+				continue
+			}
+			// a report was printed: its columns partition the window spanned by the accepted directives (a refused price is none)
+			bt.Add(func(model string) {
+				if !strings.HasPrefix(model, "ok") {
+					c.Compare("edges", jb.idx, "columns", in, "header "+strings.Join(header, " "), model)
+					return
+				}
+				var ends []int
+				for _, f := range strings.Fields(model)[1:] {
+					var s, e int
+					fmt.Sscanf(f, "%d:%d", &s, &e)
+					ends = append(ends, e)
+				}
+				if b < a {
+					c.Monitor("edges", jb.idx, "empty window shows no amounts", in, len(row) == 0 || allZero(row), run.stdout)
+					return
+				}
+				want := make([]string, len(ends))
+				for k, e := range ends {
+					want[k] = fmtDate(e)
+				}
+				if !c.Monitor("edges", jb.idx, "C11 columns are the period ends of the partition of the window spanned by the accepted directives", in, strings.Join(header, ",") == strings.Join(want, ","),
+					fmt.Sprintf("columns %v, period ends of the model %v for the window %s..%s\n%s", header, want, fmtDate(a), fmtDate(b), run.stdout)) {
+					return
+				}
+				exp := make([]string, len(ends))
+				for k, e := range ends {
+					lo := 0
+					if jb.diff && k > 0 {
+						lo = ends[k-1] + 1
+					}
+					exp[k] = ""
+					if cnt := count(lo, e); cnt > 0 {
+						exp[k] = itoa(cnt)
+					}
+				}
+				got := append([]string{}, row...)
+				for len(got) < len(exp) {
+					got = append(got, "")
+				}
+				for k := range got {
+					if got[k] == "0" {
+						got[k] = ""
+					}
+				}
+				c.Monitor("edges", jb.idx, "C11 every date is attributed to the column of its period, whatever stands at the ends of the journal", in, strings.Join(got, ",") == strings.Join(exp, ","),
+					fmt.Sprintf("row of Assets:A %v, expected day counts %v (window %s..%s)\n%s", row, exp, fmtDate(a), fmtDate(b), run.stdout))
+			}, "part", itoa(a), itoa(b), itoa(jb.iv), itoa(jb.last))
+		}
+	}
+}
